@@ -1,5 +1,6 @@
 import PyxModel.Sexp
 import PyxModel.Oal.LexGen
+import PyxModel.Oal.LexClass
 
 /-! driver commands of property C13
 
@@ -10,6 +11,11 @@ import PyxModel.Oal.LexGen
                  first token is token i and whose last token is token j:
                  (start_stream start_line start_column end_stream end_line end_column "character_stream"),
                  or `none` when an index is out of range
+
+    (c13-tight (u v) (u v) ...)
+      -> for each pair of lexical units `tightOk u v` as T / F (`bad` for an undecodable unit); units are written
+         (word "s") (number "s") (fraction "s") (string "s") (ticked "s") (endfor "s") (endif "s") (endwhile "s")
+         (lit i) (div) (ns "n"), together with the unit's text and tokens:  (T "text u" "text v" ((KIND "lexeme") ...))
 -/
 namespace Pyx.Driver.C13
 open Pyx Pyx.Sexp Pyx.OalLex
@@ -28,7 +34,31 @@ def spanSexp (text : List Char) (toks : Array Tok) : Sexp → Sexp
     | _, _ => sym "none"
   | _ => sym "bad-span"
 
+def unitOf : Sexp → Option LexUnit
+  | list [sym "word", str s] => some (.word s.toList)
+  | list [sym "number", str s] => some (.number s.toList)
+  | list [sym "fraction", str s] => some (.fraction s.toList)
+  | list [sym "string", str s] => some (.string s.toList)
+  | list [sym "ticked", str s] => some (.ticked s.toList)
+  | list [sym "endfor", str s] => some (.endFor s.toList)
+  | list [sym "endif", str s] => some (.endIf s.toList)
+  | list [sym "endwhile", str s] => some (.endWhile s.toList)
+  | list [sym "lit", int i] => some (.lit i.toNat)
+  | list [sym "div"] => some .div
+  | list [sym "ns", str s] => some (.ns s.toList)
+  | _ => none
+
+def tightSexp : Sexp → Sexp
+  | list [a, b] =>
+    match unitOf a, unitOf b with
+    | some u, some v =>
+      list [ofBool (tightOk u v), str (String.ofList u.text), str (String.ofList v.text),
+            list ((u.toks ++ v.toks).map fun p => list [sym (String.ofList p.1), str (String.ofList p.2)])]
+    | _, _ => sym "bad"
+  | _ => sym "bad"
+
 def handle : List Sexp → Option Sexp
+  | sym "c13-tight" :: pairs => some (list (pairs.map tightSexp))
   | sym "c13-lex" :: str text :: spans =>
     let cs := text.toList
     let toks := lex cs
